@@ -47,6 +47,25 @@ def has_repeated_index(e) -> bool:
     return False
 
 
+def ill_formed(e) -> str:
+    """Why the cartesian-product reading does not apply (the hypotheses of the theorems, re-stated on real
+    objects): a pool value that mentions an index of its own sum (the pools of one sum are independent), a pool
+    value that mentions a symbol bound inside the summand (inserting it captures), a pool sum inside a pool."""
+    for ps in pool_sums(e):
+        own = {s for s, _ in ps.indices}
+        inner_bound = all_bound(ps.expression)
+        for _, vals in ps.indices:
+            for v in vals:
+                if pool_sums(v):
+                    return "pool value contains a pool sum"
+                fs = v.free_symbols
+                if fs & own:
+                    return "pool value mentions an index of the same sum"
+                if fs & inner_bound:
+                    return "pool value mentions a symbol bound inside the summand"
+    return ""
+
+
 def all_bound(e) -> set:
     return {s for ps in pool_sums(e) for s, _ in ps.indices}
 
@@ -108,6 +127,7 @@ def check_term(real, rng, subs_requests, all_symbols):  # noqa: C901, PLR0912
     fails, notes = [], []
     envs = random_envs(rng, all_symbols)
     repeated = has_repeated_index(real)
+    ill = ill_formed(real)
     done = real.doit()
     expl = explicit(real).doit()  # (.doit(): unfolds unevaluated nodes that enclose or occur in a sum)
     # second call == first call (SymPy caches by equality), round trips leave the sum intact
@@ -128,20 +148,33 @@ def check_term(real, rng, subs_requests, all_symbols):  # noqa: C901, PLR0912
     if pool_sums(done):
         fails.append({"class": "doit leaves a PoolSum", "expr": sp.srepr(real), "doit": str(done)})
     elif not same_value(done, expl, envs):
-        if repeated:
-            notes.append({"excluded": "repeated index symbol", "expr": str(real), "doit": str(done)[:200], "nested-sum reading": str(expl)[:200]})
+        if repeated or ill:
+            notes.append({"excluded": ill or "repeated index symbol", "expr": str(real), "doit": str(done)[:200], "nested-sum reading": str(expl)[:200]})
         else:
             fails.append({"class": "doit != explicit sum over the cartesian product", "expr": sp.srepr(real),
                           "doit": str(done), "explicit": str(expl)})
     for ps in pool_sums(real):
         # (2) free symbols
         idx = {s for s, _ in ps.indices}
-        want = ps.expression.free_symbols - idx
+        # (pool values are arguments too: a symbol that occurs only in a pool is a free symbol of the sum — the value
+        # depends on it —, which is judged semantically below: clause (4) substitutes it)
+        in_pools = set().union(*[v.free_symbols for _, vals in ps.indices for v in vals]) if ps.indices else set()
+        want = (ps.expression.free_symbols | in_pools) - idx
         if ps.free_symbols != want:
             fails.append({"class": "free_symbols != free(summand) - indices", "expr": sp.srepr(ps),
-                          "free_symbols": sorted(map(str, ps.free_symbols)), "expected": sorted(map(str, want))})
+                          "free_symbols": sorted(map(str, ps.free_symbols)), "expected": sorted(map(str, want)),
+                          "note": "expected = free symbols of the summand and of the pool values, minus the indices"})
+        elif not has_repeated_index(ps) and not ill_formed(ps):
+            # semantic reading of clause (2): the explicit sum depends exactly on symbols reported free
+            ex = explicit(ps)
+            labels = {ix.base.label for ix in ex.atoms(sp.Indexed)}
+            ex_free = {s_ for s_ in ex.free_symbols if isinstance(s_, sp.Symbol) and s_ not in labels}
+            if not ex_free <= ps.free_symbols:
+                fails.append({"class": "free_symbols != free(summand) - indices", "expr": sp.srepr(ps),
+                              "free_symbols": sorted(map(str, ps.free_symbols)),
+                              "explicit_sum_depends_on": sorted(map(str, ex_free))})
         # (3) cleanup
-        if has_repeated_index(ps):
+        if has_repeated_index(ps) or ill_formed(ps):
             continue
         cl = ps.cleanup()
         if ps.cleanup() != cl:
@@ -168,12 +201,14 @@ def check_term(real, rng, subs_requests, all_symbols):  # noqa: C901, PLR0912
         if x in real.free_symbols and x not in bound and not (a.free_symbols & bound):
             lhs = real.subs(x, a).doit()
             rhs = done.subs(x, a)
-            if not repeated and not same_value(lhs, rhs, envs):
+            if pool_sums(lhs):
+                fails.append({"class": "doit leaves a PoolSum", "expr": sp.srepr(real.subs(x, a)), "doit": str(lhs)[:300]})
+            elif not repeated and not ill and not same_value(lhs, rhs, envs):
                 fails.append({"class": "subs of a free symbol does not commute with evaluation", "expr": sp.srepr(real),
                               "old": str(x), "new": str(a), "subs_then_doit": str(lhs)[:300], "doit_then_subs": str(rhs)[:300]})
             lhs = real.xreplace({x: a}).doit()
             rhs = done.xreplace({x: a})
-            if not repeated and not same_value(lhs, rhs, envs):
+            if not repeated and not ill and not same_value(lhs, rhs, envs):
                 fails.append({"class": "xreplace of a free symbol does not commute with evaluation", "expr": sp.srepr(real),
                               "old": str(x), "new": str(a)})
         elif x not in real.free_symbols and x in bound:
